@@ -608,6 +608,34 @@ def D65():
     return 'ramp 1 / h, step lengths %s h: change per step %s (ramp x step length: %s)' % (tg.dt, np.round(np.diff(np.hstack((0, x))), 2), 1. * tg.dt)
 
 
+@witness
+def D66():
+    tg = A.Timegrid(dt.date(2021, 1, 1), dt.date(2021, 1, 2), freq='h')
+    n1, n2 = A.Node('n1'), A.Node('n2')
+    src = A.SimpleContract(name='src', nodes=n2, price='p', min_cap=0., max_cap=100.)
+    sink = A.SimpleContract(name='sink', nodes=n1, price='q', min_cap=-10., max_cap=0.)
+    tr = A.Transport(name='tr', nodes=[n1, n2], min_cap=-10., max_cap=0., efficiency=0.5)
+    pf = eao.portfolio.Portfolio([src, sink, tr])
+    op = pf.setup_optim_problem({'p': np.ones(tg.T), 'q': np.ones(tg.T)}, tg)
+    r = op.optimize()
+    return 'reverse transport with efficiency 0.5, same price at both nodes: value %.2f (a lossy transport cannot earn anything: 0.00)' % r.value
+
+
+@witness
+def D67():
+    tg = A.Timegrid(dt.date(2021, 1, 1), dt.date(2021, 1, 5), freq='h')
+    sto = A.Storage(name='sto', nodes=N1, size=60., cap_in=1., cap_out=1., freq='d', inflow=0.25)
+    mkt = A.SimpleContract(name='mkt', nodes=N1, min_cap=-50., max_cap=50., price='price')
+    pr = np.ones(tg.T); pr[:48] = 0.
+    pf = eao.portfolio.Portfolio([sto, mkt])
+    op = pf.setup_optim_problem({'price': pr}, tg)
+    res = op.optimize()
+    out = eao.io.extract_output(pf, op, res, {'price': pr})['internal_variables']
+    rep = out['sto_fill_level'].values.astype(float)
+    phys = (out['sto_charge'].values.astype(float) + out['sto_discharge'].values.astype(float) + 0.25 * tg.dt).cumsum()
+    return 'daily storage on an hourly grid with inflow: reported level %s, level from the reported flows %s (max deviation %.2f)' % (np.round(rep[:3], 2), np.round(phys[:3], 2), np.abs(rep - phys).max())
+
+
 if __name__ == '__main__':
     which = sys.argv[1:] or list(W)
     for k in which:
